@@ -236,7 +236,12 @@ def run_case(ctx, case):
             share = (h // 7) % 3 == 0
             if share:
                 ctx.count("ir_with_shared_operand_objects")
-            sub = assemble_subroutine(gs.render_ir(items, kinds_of, build=build, split=(h // 3) % (len(items) + 1), share=share))
+            proto = gs.render_ir(items, kinds_of, build=build, split=(h // 3) % (len(items) + 1), share=share)
+            if (h // 11) % 4 == 0:
+                # the IR is instantiated (template arguments filled in - there are none here) before it is assembled
+                ctx.count("ir_instantiated_before_assembling")
+                proto.instantiate(app_id=0, arguments={})
+            sub = assemble_subroutine(proto)
     except RuntimeError as e:
         nR = len({r for r in named_registers(items) if r[0] == "R"})
         if "no registers left" in str(e) and nR + max_lits(items) > 16:
